@@ -26,7 +26,7 @@ RULE = (
     "cases = TIR transactions: a position-complete sweep (a value parameter, `fees`, an input and an "
     "input whose query holds parameters, placed in every child position of every node kind, in rotating "
     "transaction slots) plus type-directed random templates (every position may hold a parameter, an "
-    "input, fees or a compiler op; a malformed tail), each with type-correct arguments, UTxO sets and a fee; templates with 2-4 parameters applied in two rounds (a strict subset of the arguments, then the rest); the arg-kind sweep of C07. "
+    "input, fees or a compiler op; a malformed tail), each with type-correct arguments, UTxO sets and a fee; templates with 2-4 parameters applied in two rounds (a strict subset of the arguments, then the rest); the arg-kind sweep of C07; a named sweep (a value parameter and an input block under every name harvested from the string literals of the crates' source - as it is, as prefix, as suffix). "
     "Non-trivial = the template has at least one unresolved parameter node; distinct = distinct "
     "(template, args, fee)"
 )
